@@ -1469,13 +1469,17 @@ class timed_window_unique(Stream):
             # remove key if already present so that emitted value
             # will reflect elements' actual relative ordering
             self._buffer.pop(y, None)
-            self._metadata_buffer.pop(y, None)
+            replaced = self._metadata_buffer.pop(y, None)
+            if replaced:
+                self._release_refs(replaced)
             self._buffer[y] = x
             self._metadata_buffer[y] = metadata
         else:  # self.keep == "first"
             if y not in self._buffer:
                 self._buffer[y] = x
                 self._metadata_buffer[y] = metadata
+            else:
+                self._release_refs(metadata)
         return self.last
 
     @gen.coroutine
